@@ -9,5 +9,7 @@ PROP = dict(
     units=[
         U("mergeexh", ".", "^TestVerifC11_MergeExhaustive$", 0, 0, sq=1, sth=1, rapid=False),
         U("mergernd", ".", "^TestVerifC11_MergeRandom$", 1500, 60000, sq=3, sth=8),
+        U("e2e2", "./server", "^TestVerifC11_E2E2$", 60, 1500, sq=2, sth=3),
+        U("e2e3", "./server", "^TestVerifC11_E2E3$", 60, 1500, sq=2, sth=3),
     ],
 )
